@@ -52,7 +52,7 @@ Definition census (s : state) (t : tid) : Prop :=
   | KSub _ => hd_error (calls s) = Some t
   | KUnsub => In t (tl (calls s))
   | KLoop => rtask s = Some t \/ donep s t
-  | KOne p _ => (p = cur s \/ donep s t) /\ In p (calls s)
+  | KOne p _ => (donep s t \/ (p = cur s /\ ~ donep s p)) /\ In p (calls s)
   end.
 
 Definition is_sub_kind (k : tkind) : bool := match k with KSub _ => true | _ => false end.
@@ -143,7 +143,7 @@ Proof. decide equality; apply Nat.eq_dec. Defined.
 Definition nchild (pend : list handle) (c : tid) : nat := count_occ handle_eq_dec pend (HChild c).
 
 Definition count_ok (pend : list handle) (s : state) : Prop :=
-  (forall p, In (HChild p) pend -> p < ntasks s) /\
+  (forall p, 0 < nchild pend p -> p < ntasks s) /\
   (calls s <> [] -> ~ donep s (cur s) ->
    match pcof s (cur s) with
    | PUnsubGather n _ => nlive s (cur s) + nchild pend (cur s) <= n
@@ -167,6 +167,7 @@ Record Inv (pend : list handle) (s : state) : Prop := mkInv {
              (forall x, In x (dkeys (routed s)) -> In x (dkeys (subs s)) \/ inflight s x \/ unsub_pending s x) /\
              (forall lt p r, rtask s = Some lt -> pcof s lt = PPass p StRenew r -> ~ doomed s lt);
   iv_phase : phase_ok s;
+  iv_wait : forall t, t < ntasks s -> forall h, In h (t_waiters (tasks s t)) -> exists u, h = HStep u;
   iv_count : count_ok pend s
 }.
 
